@@ -286,8 +286,10 @@ def judge(ctx, spec, out):
             # the fresh-process call returns within 3M steps, here it ran past 4M
             return {'op_index': rec['i'], 'op_id': rec['id'], 'op': rec['op'], 'f': rec['f'], 'call_repr': call_repr(call),
                     'expected': exp['outcome'], 'observed': rec['outcome'], 'kind': 'did-not-return',
-                    'detail': 'did-not-return at op %d: %s needs %d steps in a fresh process, exceeded %d here'
-                              % (rec['i'], call_repr(call), exp['steps'], rec['steps'])}
+                    'detail': ('did-not-return at op %d: %s blocks forever on a lock/condition left behind by an earlier call'
+                               % (rec['i'], call_repr(call))) if rec['outcome'][1] == 'deadlock' else
+                              ('did-not-return at op %d: %s needs %d steps in a fresh process, exceeded %d here'
+                               % (rec['i'], call_repr(call), exp['steps'], rec['steps']))}
         base = {'op_index': rec['i'], 'op_id': rec['id'], 'op': rec['op'], 'f': rec['f'], 'call_repr': call_repr(call),
                 'expected': exp['outcome']}
         interrupted = rec['op'] == 'interrupt' and rec['landed']
